@@ -1,7 +1,6 @@
 package obykeyset
 
 import (
-	"strings"
 	"time"
 
 	"github.com/relex/gotils/logger"
@@ -76,7 +75,7 @@ func NewOrchestrator(parentLogger logger.Logger, schema base.LogSchema, keyField
 		localMap := o.workerMap.MakeLocalMap()
 		onCreating := func([]string) {}
 		for _, pipelineID := range initialPipelineIDs {
-			keys := strings.Split(pipelineID, ",")
+			keys := splitPipelineID(pipelineID)
 			if len(keys) != len(keyFields) {
 				// FIXME: deal with new keys, shorter old keys should be okay
 				ologger.Warnf("ignore malformed existing pipeline ID: %s", pipelineID)
@@ -105,7 +104,7 @@ func (o *byKeySetOrchestrator) Shutdown() {
 // newPipeline creates channel and pipeline workers for a new key-set, must be protected by global mutex
 func (o *byKeySetOrchestrator) newPipeline(keys []string, onStopped func()) chan<- []*base.LogRecord {
 	outputTag := o.tagBuilder.Build(keys)
-	workerID := strings.Join(keys, ",")
+	workerID := makePipelineID(keys)
 	inputChannel := make(chan []*base.LogRecord, defs.IntermediateBufferedChannelSize)
 	pipelineLogger := o.logger.WithField(defs.LabelName, workerID)
 	pipelineLogger.Infof("new pipeline tag=%s", outputTag)
@@ -144,7 +143,7 @@ func (oc *byKeySetOrchestratorSink) Close() {
 }
 
 func (oc *byKeySetOrchestratorSink) onNewLinkToPipeline(permKeys []string) {
-	workerID := strings.Join(permKeys, ",")
+	workerID := makePipelineID(permKeys)
 	oc.logger.WithField(defs.LabelName, workerID).Info("creating new link from input to pipeline worker")
 }
 
